@@ -3,6 +3,7 @@ package main
 // Term DAG with hash-consing, light simplification and SMT-LIB2 printing.
 
 import (
+	"os"
 	"fmt"
 	"math/big"
 	"sort"
@@ -27,7 +28,8 @@ type Sort struct {
 
 func (s *Sort) String() string { return s.str }
 
-type TB struct { // term builder (one per verification unit; not goroutine safe)
+type TB struct {
+	SelectIte bool // term builder (one per verification unit; not goroutine safe)
 	sorts  map[string]*Sort
 	terms  map[string]*Term
 	nextID int
@@ -64,6 +66,7 @@ type Term struct {
 
 func NewTB() *TB {
 	tb := &TB{sorts: map[string]*Sort{}, terms: map[string]*Term{}, fresh: map[string]int{}, decls: map[string]*Term{}, ufs: map[string]*UFDecl{}}
+	tb.SelectIte = os.Getenv("GOVC_NO_SELITE") == ""
 	tb.Bool = tb.intern(&Sort{Kind: SBool, str: "Bool"})
 	tb.True = tb.mk(&Term{Op: "true", Sort: tb.Bool})
 	tb.False = tb.mk(&Term{Op: "false", Sort: tb.Bool})
@@ -744,6 +747,10 @@ func (tb *TB) Select(a, i *Term) *Term {
 	}
 	if a.Op == "constarr" {
 		return a.Args[0]
+	}
+	if a.Op == "ite" && tb.SelectIte {
+		// heap merged at a join: read both sides (keeps the plain reads visible as patterns)
+		return tb.Ite(a.Args[0], tb.Select(a.Args[1], i), tb.Select(a.Args[2], i))
 	}
 	return tb.mk(&Term{Op: "select", Args: []*Term{a, i}, Sort: a.Sort.Elem})
 }
